@@ -169,7 +169,8 @@ static void compute_levels(
 /**
  * The flat element list of a footer must describe exactly one tree, rooted at
  * element 0, in depth-first order: every element named, every child count
- * non-negative and within the list, no element left over. Everything that
+ * non-negative and within the list, typed leaves and untyped groups, no
+ * element left over. Everything that
  * indexes leaves or walks children afterwards relies on this.
  */
 static const char* schema_list_defect(const parquet_schema_element_t* elements, int32_t count) {
@@ -187,6 +188,12 @@ static const char* schema_list_defect(const parquet_schema_element_t* elements, 
         int32_t children = elements[i].num_children;
         if (children < 0 || children > count - 1 - i) {
             return "Schema element with an invalid child count";
+        }
+        /* leaves carry a physical type, groups do not: the public node
+         * accessors (is_leaf) and the column numbering rely on both views
+         * naming the same elements */
+        if (i > 0 && (children == 0) != elements[i].has_type) {
+            return "Schema element is neither a typed leaf nor an untyped group";
         }
         open += children - 1;
     }
